@@ -397,7 +397,6 @@ def pcName : Conc.Pc → String
   | .apWal .. => "apply.before_wal" | .apUnlink .. => "delete_blobs.before_unlink"
   | .apUnlocked .. => "apply.after_intents_unlock"
   | .ckState .. => "checkpoint.before_state" | .ckWal .. => "checkpoint.before_wal"
-  | .guardDrop .. => "guard_drop.before_intents"
   | .rmScan .. => "remove.before_scan" | .rrScan .. => "remove_range.before_scan"
   | .rdLookup .. => "read.before_lookup" | .rdOpened .. => "read.after_open"
   | .orIntents .. => "orphan.before_intents" | .orState .. => "orphan.before_state"
